@@ -344,8 +344,12 @@ class HistoryGen:
         if kind == "load":
             n = rng.randint(1, 3)
             pairs = []
+            # deferred equality a._eq(b) prints as (a == b), which evaluates to a bool (KF-2, C11): kept out of
+            # everything that is loaded from printed text unless the run belongs to C11's eq/ne population
+            keep, self.eg.no_eqne = self.eg.no_eqne, not self.cfg.get("eqne_in_text", False)
             for p in rng.sample(free, min(n, len(free))):
                 pairs.append((p, self.eg.gen(spec.leaf_type[p], min(2, self.cfg["expr_depth"]), True)))
+            self.eg.no_eqne = keep
             return ("load", tuple(pairs), rng.random() < 0.7)
         if kind in ("refresh", "cleanup", "verify"):
             return (kind,)
